@@ -44,6 +44,11 @@ def run(tier):
         'measure': Measure(), 'measure(2)': Measure(2), 'measure.nondestructive': Measure(destructive=False),
         'measure.override_bits': Measure(override_bits=True),
         'measure.nondestructive.override': Measure(destructive=False, override_bits=True),
+        'measure(2).nondestructive': Measure(2, destructive=False),
+        'measure(2).override_bits': Measure(2, override_bits=True),
+        'measure(2).nondestructive.override': Measure(2, destructive=False, override_bits=True),
+        'encode(2).nonconstructive': Encode(2, constructive=False), 'encode(2).reset_bits': Encode(2, reset_bits=True),
+        'encode(2).nonconstructive.reset': Encode(2, constructive=False, reset_bits=True),
         'encode': Encode(), 'encode(2)': Encode(2), 'encode.nonconstructive': Encode(constructive=False),
         'encode.reset_bits': Encode(reset_bits=True),
         'discard.qubit': Discard(), 'discard.2qubits': Discard(2), 'discard.bit': Discard(bit),
@@ -58,6 +63,11 @@ def run(tier):
     for name, box in gen.items():
         got = F(box).array
         want = cqsim.cq_array(box, matrix_of, symbolic=True)
+        if numpy.size(numpy.array(got, dtype=object)) != numpy.size(numpy.array(want, dtype=object)):
+            suite.fact('cq[%s]' % name, False, functions=['quantum.cqmap.Functor._ar'],
+                       what='the CQ map of %s has %d entries, the textbook map has %d (wrong type)'
+                            % (name, numpy.size(numpy.array(got, dtype=object)), numpy.size(numpy.array(want, dtype=object))))
+            continue
         suite.identity('cq[%s]' % name, numpy.array(got, dtype=object).reshape(numpy.shape(want)), want, angle=phi,
                        extra=(a, b, c, d), functions=['quantum.cqmap.Functor._ar', 'quantum.cqmap.CQMap.' +
                                                       name.split('.')[0].split('(')[0]],
